@@ -309,6 +309,50 @@ func c15TimeoutAfterRedeploy(w *World) []Violation {
 	return vs
 }
 
+// c15MuteTarget: the target accepts the request head and then stays silent - it does not read the body and answers
+// nothing, not even `100 Continue`. Whatever the request looks like (no body, a body, a body announced with
+// `Expect: 100-continue`, a chunked one), the client gets 504 when the target timeout has passed, not later.
+func c15MuteTarget(w *World) []Violation {
+	var vs []Violation
+	tg := w.AddTarget("fmute:80")
+	tg.Responder = c15Responder
+	for _, bufReq := range []bool{false, true} {
+		for _, to := range []time.Duration{vTargetTO, 1300 * time.Millisecond} {
+			a := deployArgs("fmute", []string{"fmute:80"}, []string{"fmute.example.com"}, nil)
+			a.TargetOptions.ResponseTimeout = to
+			a.TargetOptions.BufferRequests = bufReq
+			if r := w.Deploy(a); r.Err != nil {
+				return append(vs, Violation{"C15", "deploy-failed", r.Err.Error()})
+			}
+			for _, shape := range []string{"get", "post", "post-expect", "post-chunked-expect"} {
+				spec := ReqSpec{Host: "fmute.example.com", Path: "/m", Header: [][2]string{{"X-Verif-Mute", "1"}}}
+				switch shape {
+				case "post":
+					spec.Method, spec.Body = "POST", []byte("abc")
+				case "post-expect":
+					spec.Method, spec.Body = "POST", []byte("abc")
+					spec.Header = append(spec.Header, [2]string{"Expect", "100-continue"})
+				case "post-chunked-expect":
+					spec.Method, spec.Body, spec.Chunked = "POST", []byte("abcdef"), true
+					spec.Header = append(spec.Header, [2]string{"Expect", "100-continue"})
+				case "post-big-expect":
+					spec.Method, spec.Body = "POST", bytes.Repeat([]byte("x"), 70000)
+					spec.Header = append(spec.Header, [2]string{"Expect", "100-continue"})
+				}
+				t0 := w.Now()
+				o := w.Do(spec)
+				if o.Status != 504 {
+					vs = append(vs, Violation{"C15", fmt.Sprintf("mute-target-not-504 got=%d", o.Status), fmt.Sprintf("%s buffer-requests=%v timeout %v: %s", shape, bufReq, to, o.Summary())})
+				} else if el := o.End - t0; el != to {
+					vs = append(vs, Violation{"C15", "504-not-at-target-timeout mute-target " + shape, fmt.Sprintf("buffer-requests=%v: answered after %v, the target timeout is %v", bufReq, el, to)})
+				}
+			}
+		}
+	}
+	w.Remove("fmute")
+	return vs
+}
+
 func c15Offsets(raw []byte, tier string) []int {
 	he := hdrEnd(raw)
 	seen := map[int]bool{}
@@ -393,6 +437,7 @@ func c15Cases(tier string) []ECase {
 		}
 	}
 	cases = append(cases, ECase{Name: "redeploy onto the same target with another target timeout", Class: "timeout-after-redeploy", Run: c15TimeoutAfterRedeploy})
+	cases = append(cases, ECase{Name: "target that accepts the request and stays mute (body shapes incl. Expect: 100-continue)", Class: "mute-target", Run: c15MuteTarget})
 	return cases
 }
 
